@@ -1,4 +1,5 @@
 import Crusta.Proofs.Oracle
+import Crusta.Proofs.StaticAll
 
 /-! # C01 — single-extension answers are genuine extensions (property theorems) -/
 
@@ -26,5 +27,29 @@ theorem enumeration_complete (σ : Sem) (af : AF) (hwf : af.WF) (S : ASet) (hS :
     ∃ l ∈ σ.exts af, ofList l = S := by
   obtain ⟨l, hl, rfl⟩ := exists_list_of_sub af S (ext_sub σ hS)
   exact ⟨l, (mem_exts_iff σ af hwf l).2 ⟨hl, hS⟩, rfl⟩
+
+
+/-- **C01 on the solver programs** (model `Crusta.entryProg`, tied to the implementation by the
+call-by-call trace correspondence of the `solve` family): for each of the seven solver types, every
+view presenting a graph `g` (compact or with removed arguments), every encoder the solver type is
+meant for (`CfgOK`), every world and every run on replies a correct SAT solver may give: a returned
+extension is an extension of `g` under the solver's semantics, and "no extension" is returned only
+if there is none. -/
+theorem se_answers_are_extensions (sk : SolverKind) (cfg : Cfg) (hcfg : CfgOK sk cfg) (v : FwView) (g : G) (hv : v.Ok g)
+    (p : Prog Ans) (hp : entryProg sk cfg v .se = some p) (w : World) (hb : w.Bounded) (rs : List Reply)
+    (hs : RunSound p rs w) (res : Option (List Nat)) (w' : World) (hrun : interp p rs w = (.done (.ext res), w')) :
+    (∀ e, res = some e → sk.sem.GExt g (ofList e)) ∧ (res = none → ¬ ∃ S, sk.sem.GExt g S) :=
+  static_answers_conform sk cfg hcfg v g hv .se (fun _ h => by simp [Entry.argsList] at h) p hp w hb rs hs _ w' hrun
+
+/-- on compact frameworks these are the textbook semantics of the spec layer -/
+theorem semantics_compact (σ : Sem) (af : AF) (S : ASet) : σ.GExt af.g S ↔ σ.Ext af S := gext_compact σ af S
+
+/-- the grounded extension algorithm and the connected-components algorithm underlying all SE
+answers are exact (for every view presenting a graph) -/
+theorem graph_algorithms_exact (v : FwView) (g : G) (h : v.Ok g) :
+    g.Grounded (ofList (groundedV v)) ∧
+    (∀ oc ∈ allComps v, ∃ c, oc = some c ∧ GoodComp g c ∧ c.ids ≠ []) ∧
+    (∀ a, g.live a = true → ∃ c, some c ∈ allComps v ∧ a ∈ c.ids) :=
+  ⟨(groundedV_spec v g h).1, (allComps_spec v g h).1, (allComps_spec v g h).2.2⟩
 
 end Crusta.C01
